@@ -181,12 +181,17 @@ def validation_vectors(ctx, limit):
         add_verify(ctx, bytes.fromhex(v['key']), v['msg'].encode(), bytes.fromhex(v['sig']), ['validationvectors'])
 
 
-def task(prop, seed, size, cfgbins):
+def make(seed, size):
     ctx = core.Ctx(seed, prefix='v%d_' % (seed % 100000))
     honest(ctx, max(4, size // 4))
     small_order(ctx, max(6, size // 3))
     mixed_order(ctx, max(4, size // 4))
     validation_vectors(ctx, max(10, size // 2))
+    return ctx
+
+
+def task(prop, seed, size, cfgbins):
+    ctx = make(seed, size)
     return core.run_and_judge(prop, ctx, cfgbins)
 
 
